@@ -65,6 +65,8 @@ def ghost_app(c):
     g["dl"] = SV("log", smt.fresh(Log, "dl"))      # callbacks delivered through WebSocketApp._callback, in order
     g["raw"] = SV("log", smt.fresh(Log, "raw"))    # every user-callback invocation, incl. exceptions forwarded to on_error
     g["teardowns"] = c.fresh("int", "teardowns")
+    for n in ("attempts", "opened_handles", "resched", "live_ping_threads"):
+        g.setdefault(n, c.fresh("int", n))
 
 
 CB_NAMES = ["on_open", "on_reconnect", "on_message", "on_data", "on_error", "on_close", "on_ping", "on_pong", "on_cont_message"]
@@ -124,6 +126,16 @@ def app_ws_inv(c, app, view=None):
     return z3.Implies(z3.Not(zn(s)), inv)
 
 
+def app_closed_by_callback(c, app):
+    """effect of app.close() called from a user callback: not running any more, socket closed (handle released) and dropped."""
+    had = has_transport(c, app)
+    c.ghost["closed_handles"] = SV("int", z(c.ghost["closed_handles"]) + z3.If(had, 1, 0))
+    c.setf(app, "keep_running", False)
+    c.setf(app, "sock", None)
+    c.ghost["auto_close"] = c.fresh("int", "auto_close")
+    c.ghost["wire"] = c.fresh("bytes", "wire")
+
+
 def log_append(log, cb, args):
     """log ++ [ev(cb, args)] unless the callback is not set."""
     ext = unopt(cb)
@@ -139,6 +151,7 @@ def install(e):
     install_teardown(e)
     install_loop(e)
     install_read(e)
+    install_run(e)
 
 
 def install_callbacks(e):
@@ -150,11 +163,7 @@ def install_callbacks(e):
         c.ghost["raw"] = SV("log", Log.snoc(z(c.ghost["raw"]), mk_event(cb.id, args[1:])))
         # a callback may call app.close(): keep_running' = False and the socket is dropped
         if isinstance(app, Ref) and c.hasf(app, "keep_running") and c.choose(2) == 1:
-            c.setf(app, "keep_running", False)
-            c.setf(app, "sock", None)
-            c.ghost["closed_handles"] = c.fresh("int", "closed_handles")
-            c.ghost["auto_close"] = c.fresh("int", "auto_close")
-            c.ghost["wire"] = c.fresh("bytes", "wire")
+            app_closed_by_callback(c, app)
     e.add(Contract("ext:callback.__call__", assumed=True, havoc=cb_havoc,
                    raises=[(Exception, None, None), (KeyboardInterrupt, None, None), (SystemExit, None, None)],
                    doc="user callback: appends its invocation to the raw log; may raise any Exception subclass, KeyboardInterrupt or "
@@ -187,7 +196,8 @@ def install_callbacks(e):
         return z3.And(
             z(c.ghost["dl"]) == z3.If(zn(cb), dl0, Log.snoc(dl0, ev)),
             z3.Implies(zn(cb), z(c.ghost["raw"]) == raw0),
-            z3.Implies(z3.Not(zn(cb)), z3.Or(z(c.ghost["raw"]) == called, fwd)))
+            z3.Implies(z3.Not(zn(cb)), z3.Or(z(c.ghost["raw"]) == called, fwd)),
+            LIVE(c, app))
 
     def cbk_exc_post(c, old, a, exc):
         # the callback (or on_error itself) raised: the invocation is on the logs all the same
@@ -196,7 +206,7 @@ def install_callbacks(e):
         if ext is None:
             return z3.BoolVal(False)
         ev = mk_event(ext.id, cbk_args(a))
-        return z3.And(z3.Not(zn(cb)), z(c.ghost["dl"]) == Log.snoc(z(old.ghost["dl"]), ev))
+        return z3.And(z3.Not(zn(cb)), z(c.ghost["dl"]) == Log.snoc(z(old.ghost["dl"]), ev), LIVE(c, app))
 
     def cbk_havoc(c, a, old, k):
         app = a["self"]
@@ -204,17 +214,13 @@ def install_callbacks(e):
             c.ghost[g] = SV("log", smt.fresh(Log, g))
         # callbacks may have closed the app
         if unopt(a["callback"]) is not None and c.choose(2) == 1:
-            c.setf(app, "keep_running", False)
-            c.setf(app, "sock", None)
-            c.ghost["closed_handles"] = c.fresh("int", "closed_handles")
-            c.ghost["auto_close"] = c.fresh("int", "auto_close")
-            c.ghost["wire"] = c.fresh("bytes", "wire")
+            app_closed_by_callback(c, app)
 
     def cbk_ghost_entry(c, a):
         # definition of the delivery log: one entry per _callback call whose callback is set
         c.ghost["dl"] = SV("log", log_append(z(c.ghost["dl"]), a["callback"], cbk_args(a)))
     e.add(Contract(P + "WebSocketApp._callback", cases=[(f"args{n}", cbk_case(n)) for n in range(6)],
-                   ensures=cbk_post, havoc=cbk_havoc,
+                   requires=lambda c, a: LIVE(c, a["self"]), ensures=cbk_post, havoc=cbk_havoc,
                    raises=[(KeyboardInterrupt, None, cbk_exc_post), (SystemExit, None, cbk_exc_post),
                            (Exception, lambda c, old, a: z3.Not(zn(old.getf(a["self"], "on_error"))), cbk_exc_post)],
                    modifies=lambda c, a: ["ghost:dl", "ghost:raw", "ghost:closed_handles", "ghost:auto_close", "ghost:wire",
@@ -280,12 +286,12 @@ def install_small(e):
         return z3.And(z3.Not(zn(T_)), T != 0, p != 0, now - p > T, z3.Or(q - p < 0, q - p > T))
 
     def check_post(c, old, a, res):
-        app = a["$closure"]["self"]
+        app = _app_of(a)
         now = z(c.ghost["clock"], "real")
         return z3.And(z3.BoolVal(res is True), z3.Not(check_cond(c, app, now, old)))
 
     def check_raise(c, old, a, exc):
-        app = a["$closure"]["self"]
+        app = _app_of(a)
         return check_cond(c, app, z(c.ghost["clock"], "real"), old)
     e.add(Contract(P + RF + "check", cases=[("any", check_case)], ensures=check_post, result=lambda c, a: True,
                    raises=[(X.WebSocketTimeoutException, None, check_raise)],
@@ -294,6 +300,11 @@ def install_small(e):
                    doc="raises WebSocketTimeoutException('ping/pong timed out') exactly when ping_timeout is set, a ping is outstanding "
                        "(last_ping_tm != 0), now - last_ping_tm > T and the last pong is older than that ping or later than T after it; "
                        "otherwise returns True; modifies nothing"))
+
+
+def _app_of(a):
+    cl = a["$closure"]
+    return cl["self"] if isinstance(cl, dict) else cl.locals["self"]
 
 
 def sibling(e, name, env):
@@ -390,10 +401,26 @@ def install_threads(e):
                    props=("C15", "C16"), doc="resets the liveness stamps, creates a fresh stop event and starts exactly one daemon thread"))
 
 
+def has_transport(c, app, view=None):
+    v = view or c
+    s_ = v.getf(app, "sock")
+    ws = unopt(s_)
+    if ws is None:
+        return z3.BoolVal(False)
+    return z3.And(z3.Not(zn(s_)), z3.Not(zn(v.getf(ws, "sock"))))
+
+
+def LIVE(c, app, view=None):
+    """exactly the app's current transport (if any) is open: opened_handles - closed_handles = 1 or 0 accordingly."""
+    v = view or c
+    return z(v.ghost["opened_handles"]) - z(v.ghost["closed_handles"]) == z3.If(has_transport(c, app, view), 1, 0)
+
+
 def APPINV(c, app, view=None):
-    """App-level invariant used by the closures: the WebSocket (if any) is consistent and the ping-thread bookkeeping holds."""
+    """App-level invariant used by the closures: the WebSocket (if any) is consistent, at most one live transport (the app's own)
+    and the ping-thread bookkeeping holds."""
     e_thread = APPINV.thread_inv
-    return z3.And(app_ws_inv(c, app, view), e_thread(c, app, view))
+    return z3.And(app_ws_inv(c, app, view), e_thread(c, app, view), LIVE(c, app, view))
 
 
 def install_teardown(e):
@@ -408,7 +435,7 @@ def install_teardown(e):
         return {"$closure": env, "close_frame": c.fresh(("opt", abnf_shape("bytes")), "close_frame")}
 
     def td_app(a):
-        return a["$closure"]["self"] if "$closure" in a and isinstance(a["$closure"], dict) else a["$closure"].locals["self"]
+        return _app_of(a)
 
     def td_expect(c, old, a):
         app = td_app(a)
@@ -459,13 +486,13 @@ def install_teardown(e):
             z3.Implies(z3.Not(done0), dl_ok),
             z3.Implies(z3.Not(done0), z3.And(z(c.ghost["teardowns"]) == z(old.ghost["teardowns"]) + 1,
                                              z(c.ghost["live_ping_threads"], "int") <= z(old.ghost["live_ping_threads"], "int"))),
-            z(c.getf(app, "has_errored"), "bool") == z(old.getf(app, "has_errored"), "bool"))
+            z(c.getf(app, "has_errored"), "bool") == z(old.getf(app, "has_errored"), "bool"), APPINV(c, app))
 
     def td_exc(c, old, a, exc):
         # the on_close callback (last action) raised: teardown has nevertheless completed
         app = td_app(a)
         return z3.And(z3.Not(z(old.getf(app, "has_done_teardown"), "bool")), td_done(c, app),
-                      z(c.getf(app, "has_errored"), "bool") == z(old.getf(app, "has_errored"), "bool"))
+                      z(c.getf(app, "has_errored"), "bool") == z(old.getf(app, "has_errored"), "bool"), APPINV(c, app))
 
     def td_entry(c, a):
         pass
@@ -624,7 +651,7 @@ def install_loop(e):
         app = app_of(a)
         env = env_of(a)
         rec = env["reconnect"]
-        base = z3.And(z(c.getf(app, "has_errored"), "bool"), z3.BoolVal(res is None), z3.BoolVal(not is_interrupt(a)))
+        base = z3.And(z(c.getf(app, "has_errored"), "bool"), z3.BoolVal(res is None), z3.BoolVal(not is_interrupt(a)), APPINV(c, app))
         dl_err = dl_after_error(c, old, a)
         if isinstance(rec, int) and rec == 0:
             # no reconnect configured: report, then tear down (on_close last)
@@ -642,11 +669,11 @@ def install_loop(e):
     def hd_interrupt(c, old, a, exc):
         # either the error being handled is itself an interrupt (then teardown ran first), or a callback raised one
         app = app_of(a)
-        return z3.And(z(c.getf(app, "has_errored"), "bool"),
+        return z3.And(z(c.getf(app, "has_errored"), "bool"), APPINV(c, app),
                       z3.Implies(z3.And(z3.BoolVal(is_interrupt(a)), zn(old.getf(app, "on_error"))), z(c.getf(app, "has_done_teardown"), "bool")))
 
     def hd_cb_exc(c, old, a, exc):
-        return z(c.getf(app_of(a), "has_errored"), "bool")
+        return z3.And(z(c.getf(app_of(a), "has_errored"), "bool"), APPINV(c, app_of(a)))
 
     def hd_havoc(c, a, old, k):
         app = app_of(a)
@@ -735,8 +762,8 @@ def install_read(e):
             # ended: not running any more, or the server's close frame: teardown with that frame (has_errored untouched);
             # with an external dispatcher a lost connection also ends here, through closed(e) -> handleDisconnect
             if env["custom_dispatcher"]:
-                return z3.Or(z(c.getf(app, "has_done_teardown"), "bool"), z(c.getf(app, "has_errored"), "bool"))
-            return z3.And(z(c.getf(app, "has_done_teardown"), "bool"),
+                return z3.And(APPINV(c, app), z3.Or(z(c.getf(app, "has_done_teardown"), "bool"), z(c.getf(app, "has_errored"), "bool")))
+            return z3.And(z(c.getf(app, "has_done_teardown"), "bool"), APPINV(c, app),
                           z(c.getf(app, "has_errored"), "bool") == z(old.getf(app, "has_errored"), "bool"))
         # one event handed to the callbacks, exactly once, in order
         if fire is True:
@@ -754,7 +781,7 @@ def install_read(e):
             as_str = SV("str", smt.utf8_dec(pay))
             msg_dl = z3.If(text, log_append(log_append(dl0, G("on_data"), (as_str, SV("int", op_ret), True)), G("on_message"), (as_str,)),
                            log_append(log_append(dl0, G("on_data"), (B(pay), SV("int", op_ret), True)), G("on_message"), (B(pay),)))
-        return z3.And(z3.BoolVal(res is True), kr0,
+        return z3.And(z3.BoolVal(res is True), kr0, APPINV(c, app),
                       z3.Implies(isdata, dl1 == msg_dl),
                       z3.Implies(d.opcode == 9, dl1 == log_append(dl0, G("on_ping"), (B(d.payload),))),
                       z3.Implies(d.opcode == 10, z3.And(dl1 == log_append(dl0, G("on_pong"), (B(d.payload),)),
@@ -764,7 +791,7 @@ def install_read(e):
                       z(c.getf(app, "has_done_teardown"), "bool") == z(old.getf(app, "has_done_teardown"), "bool"))
 
     def read_exc(c, old, a, exc):
-        return z3.BoolVal(True)
+        return APPINV(c, app_of(a))
 
     def read_havoc(c, a, old, k):
         app = app_of(a)
@@ -798,3 +825,110 @@ def install_read(e):
                        "on_message(payload) (text decoded to str), a ping to on_ping, a pong to on_pong (and last_pong_tm' = now), each exactly once and "
                        "in this order, returning True also when a callback raised; the server's close frame goes to teardown(frame) without touching "
                        "has_errored; only documented exception classes (or what a callback raised through on_error) escape"))
+
+
+def install_run(e):
+    """Dispatchers, setSock, run_forever (C13-C16)."""
+    import websocket._dispatcher as disp_mod
+    D = "websocket._dispatcher:"
+    K = "websocket._core:"
+    td = e.contracts[P + RF + "teardown"]
+    rd = e.contracts[P + RF + "read"]
+    hd = e.contracts[P + RF + "handleDisconnect"]
+
+    def app_of(a):
+        cl = a["$closure"]
+        return cl["self"] if isinstance(cl, dict) else cl.locals["self"]
+
+    def env_of(a):
+        cl = a["$closure"]
+        return cl if isinstance(cl, dict) else cl.locals
+
+    for n in ("selects", "checks"):
+        pass
+
+    def ghost_disp(c):
+        for n in ("selects", "checks", "reads"):
+            c.ghost.setdefault(n, c.fresh("int", n))
+
+    # ---- selector as used by the dispatchers ------------------------------------------------------
+    def sel_select(c, a):
+        return c.fresh(("oneof", [("const", ()), ("const", (("key", 1),))]), "ready")
+    e.contracts["ext:selector.select"].result = sel_select
+    e.add(Contract("ext:sock.pending", assumed=True, result=lambda c, a: c.fresh("int", "pending"), havoc=lambda c, a, old, k: None))
+
+    # ---- Dispatcher.read / SSLDispatcher.read -------------------------------------------------------
+    def dr_case(cls):
+        def case(c):
+            app = mk_app(c, sock="opt")
+            ghost_disp(c)
+            c.ghost["pong_acc"] = SV("bytes", smt.empty)
+            c.ghost["npings"] = 0
+            disp = c.alloc("obj", cls, dict(app=app, ping_timeout=c.fresh("real", "select_timeout")))
+            env = rf_env(c, e, app, custom_dispatcher=False, dispatcher=disp, reconnect=0)
+            return dict(self=disp, sock=None, read_callback=env["read"], check_callback=env["check"])
+        return case
+
+    def dr_app(c, a):
+        return c.getf(a["self"], "app")
+
+    def dr_req(c, a):
+        app = dr_app(c, a)
+        return z3.And(APPINV(c, app), has_transport(c, app))
+
+    def dr_inv(c, fr, entry):
+        app = c.getf(fr.locals["self"], "app")
+        # every return of select() so far was followed by one call of the check callback
+        return z3.And(APPINV(c, app), z3.Implies(z(c.getf(app, "keep_running"), "bool"), z3.Not(zn(c.getf(app, "sock")))),
+                      z(c.ghost["selects"]) - z(entry.ghost["selects"]) == z(c.ghost["checks"]) - z(entry.ghost["checks"]),
+                      z(c.ghost["selects"]) - z(entry.ghost["selects"]) >= 0)
+
+    def dr_loop_havoc(c, fr, entry):
+        app = c.getf(fr.locals["self"], "app")
+        rd.havoc(c, {"$closure": {"self": app}}, entry, 0)
+        for n in ("selects", "checks", "reads"):
+            c.ghost[n] = c.fresh("int", n)
+        c.setf(app, "keep_running", c.fresh("bool", "keep_running"))
+        c.setf(app, "has_done_teardown", c.fresh("bool", "has_done_teardown"))
+        c.setf(app, "sock", c.havoc_like(entry.getf(app, "sock"), "app.sock") if isinstance(entry.getf(app, "sock"), OptV) else entry.getf(app, "sock"))
+
+    def dr_mods(c, a):
+        app = dr_app(c, a)
+        return rd.modifies(c, {"$closure": {"self": app, "custom_dispatcher": False}}) + ["ghost:selects", "ghost:checks", "ghost:reads"]
+    for cls in ("Dispatcher", "SSLDispatcher"):
+        e.loop(f"{cls}.read", 0, inv=dr_inv, havoc=dr_loop_havoc, shapes={"r": ("const", None)},
+               modifies=lambda c, fr: dr_mods(c, dict(self=fr.locals["self"])))
+
+    def dr_post(c, old, a, res):
+        app = dr_app(c, a)
+        ds = z(c.ghost["selects"]) - z(old.ghost["selects"])
+        dc = z(c.ghost["checks"]) - z(old.ghost["checks"])
+        return z3.And(APPINV(c, app), ds - dc >= 0, ds - dc <= 1)
+
+    def dr_exc(c, old, a, exc):
+        return APPINV(c, dr_app(c, a))
+
+    def dr_havoc(c, a, old, k):
+        app = dr_app(c, a)
+        rd.havoc(c, {"$closure": {"self": app}}, old, 0)
+        for n in ("selects", "checks", "reads"):
+            if n in c.ghost:
+                c.ghost[n] = c.fresh("int", n)
+        c.setf(app, "keep_running", c.fresh("bool", "keep_running"))
+        c.setf(app, "has_done_teardown", c.fresh("bool", "has_done_teardown"))
+        s_ = old.getf(app, "sock")
+        c.setf(app, "sock", c.havoc_like(s_, "app.sock") if isinstance(s_, OptV) else OptV(smt.fresh(smt.Bool, "app.sock.isnone"), s_) if s_ is not None else None)
+    DISP_EXC = [X.WebSocketException, OSError, KeyboardInterrupt, SystemExit]
+    after_check = lambda c, fr, r: c.ghost.__setitem__("checks", SV("int", z(c.ghost["checks"]) + 1)) if "checks" in c.ghost else None
+    for cls in (disp_mod.Dispatcher, disp_mod.SSLDispatcher):
+        e.add(Contract(D + cls.__name__ + ".read", cases=[("any", dr_case(cls))], requires=dr_req, ensures=dr_post, havoc=dr_havoc,
+                       modifies=dr_mods,
+                       raises=[(k_, None, dr_exc) for k_ in DISP_EXC] +
+                              [(Exception, lambda c, old, a: z3.Not(zn(old.getf(dr_app(c, a), "on_error"))), dr_exc)],
+                       props=("C13", "C16"),
+                       doc="select loop: while the app is running, wait for readability (at most the ping timeout; TLS: pending bytes first), "
+                           "call the read callback once per readiness and leave when it returns falsy; after every return of select the "
+                           "check callback is called once; the selector is always closed"))
+        e.after_call[(cls.__name__ + ".read", "check_callback")] = after_check
+        e.after_call[(cls.__name__ + ".read", "select")] = \
+            lambda c, fr, r: c.ghost.__setitem__("selects", SV("int", z(c.ghost["selects"]) + 1)) if "selects" in c.ghost else None
